@@ -498,7 +498,11 @@ func vpGenNoFloat(out []byte, tag byte, depth int, budget *int) []byte {
 	case 4:
 		small(8)
 	case 7, 11, 12:
-		n := vp.Choice(2 + vp.Tier())
+		k := 2 + vp.Tier()
+		if depth > 0 {
+			k = 2 // (three-element arrays below the root did not finish inside the thorough budget)
+		}
+		n := vp.Choice(k)
 		out = append(out, 0, 0, 0, byte(n))
 		for i := 0; i < n; i++ {
 			small(map[byte]int{7: 1, 11: 4, 12: 8}[tag])
